@@ -13,6 +13,16 @@ from pathlib import Path
 from . import tlc
 from .common import ROOT, Ctx, MachineryError, repo_hash
 
+
+def _listfile(paths):
+    """argv cannot carry thousands of paths: write them to a file and pass @file"""
+    import tempfile
+    f = tempfile.NamedTemporaryFile("w", suffix=".json", delete=False, dir=__import__("os").path.dirname(paths[0]))
+    json.dump(paths, f)
+    f.close()
+    return "@" + f.name
+
+
 C08_INV = ["NoOverdraw", "Accounting", "FreeNeverNegative"]
 C09_INV = ["ReadsWhatWasWritten", "BytesStable", "SegmentPresent", "FreshReaderProtected", "LockSane", "CountSane"]
 ALL = C08_INV + C09_INV
@@ -98,7 +108,7 @@ warnings.filterwarnings("ignore"); logging.disable(logging.CRITICAL)
 from harness import tlc
 from harness.drive import shm
 from pathlib import Path
-files, sizes, cap, out = json.loads(sys.argv[1]), json.loads(sys.argv[2]), int(sys.argv[3]), sys.argv[4]
+files, sizes, cap, out = json.load(open(sys.argv[1][1:])) if sys.argv[1].startswith("@") else json.loads(sys.argv[1]), json.loads(sys.argv[2]), int(sys.argv[3]), sys.argv[4]
 res = []
 for f in files:
     beh = tlc.parse_sim_file(Path(f)) if f.endswith(".json") is False else [tuple(x) for x in json.load(open(f))]
@@ -112,7 +122,7 @@ json.dump(res, open(out, "w"))
 
 
 def _replay_files(files: list[Path], sizes: dict, cap: int, out: Path) -> list[dict]:
-    p = subprocess.run([sys.executable, "-W", "ignore", "-c", REPLAY_SNIPPET, json.dumps([str(f) for f in files]),
+    p = subprocess.run([sys.executable, "-W", "ignore", "-c", REPLAY_SNIPPET, _listfile([str(f) for f in files]),
                         json.dumps(sizes), str(cap), str(out)], cwd=ROOT, stdout=subprocess.PIPE, stderr=subprocess.STDOUT,
                        text=True, timeout=1800)
     if p.returncode != 0 or not out.exists():
